@@ -462,14 +462,16 @@ def _round_atom(x, mode, ctx):
 def elementwise(name, eqn, ins, ctx):
     ctx.stats['elementwise'] += 1
     o = [to_obj(i, ctx) for i in ins]
-    if name == 'add':
-        return [o[0] + o[1]]
-    if name == 'add_any':
-        return [o[0] + o[1]]
-    if name == 'sub':
-        return [o[0] - o[1]]
-    if name == 'mul':
-        return [o[0] * o[1]]
+    if name in ('add', 'add_any', 'sub', 'mul'):
+        r = o[0] + o[1] if name in ('add', 'add_any') else (o[0] - o[1] if name == 'sub' else o[0] * o[1])
+        dt = eqn.outvars[0].aval.dtype
+        if np.issubdtype(dt, np.integer):
+            # machine integers wrap: record the obligation that the exact value fits the dtype
+            info = np.iinfo(dt)
+            for a in fix(r).reshape(-1):
+                if isinstance(a, Poly) and not a.is_const():
+                    ctx.ranges.append((a, int(info.min), int(info.max), f'{name} in {np.dtype(dt).name}'))
+        return [r]
     if name == 'neg':
         return [-o[0]]
     if name == 'div':
